@@ -112,6 +112,24 @@ class IterCheck(PropCheck):
                 nfe, fdist, ffail = fe.stage(self.pid, kinds, tier, rng)
                 dist.update(fdist)
                 failures += ffail
+        # the origin-carrying exfiltrator: what `SignalsInfo<WithOrigin>` hands out for a real delivery (kill, raise,
+        # sigqueue, a child's state change, a timer) must be what the record of that very delivery says - the
+        # by-hand reading of the raw siginfo_t the harness captured in its own handler, through the Lean spec
+        if self.pid == "C10":
+            from . import c17
+            rops = ["real " + m for m in c17.MECHS] * (1 if tier == "quick" else 5)
+            rc_, rimpl, err_ = core.run_harness("origin", "\n".join(rops) + "\n")
+            dist["origin-exfiltrator-deliveries"] = len(rimpl)
+            for o, l in zip(rops, rimpl):
+                parts = l.split(" | ")
+                if len(parts) != 3:
+                    continue
+                raw = [int(x) for x in parts[0].split()[1:]]
+                spec = core.run_driver("origin", "ex %d %d %d %d\n" % tuple(raw))[0].split(" | spec ")[1]
+                if parts[1] != spec:
+                    failures.append({"kind": "violation", "key": "C10:origin:" + o.split()[1],
+                                     "what": "delivery via %s: the record handed out by the origin exfiltrator is `%s`, the information of that delivery (raw siginfo %s) is `%s`: not a faithful copy" % (o.split()[1], parts[1], raw, spec),
+                                     "payload": {"origin": True, "ops": [o], "impl": [l]}})
         uniq = {}
         for f in failures:
             uniq.setdefault(f["key"], f)
@@ -130,6 +148,16 @@ class IterCheck(PropCheck):
         if payload.get("frontend"):
             from . import fe
             return fe.replay(self.pid, payload)
+        if payload.get("origin"):
+            rc_, rimpl, err_ = core.run_harness("origin", "\n".join(payload["ops"]) + "\n")
+            bad = False
+            for l in rimpl:
+                parts = l.split(" | ")
+                if len(parts) == 3:
+                    raw = [int(x) for x in parts[0].split()[1:]]
+                    spec = core.run_driver("origin", "ex %d %d %d %d\n" % tuple(raw))[0].split(" | spec ")[1]
+                    bad = bad or parts[1] != spec
+            return bad, "\n".join(rimpl)
         if payload.get("lockstep"):
             from . import itq
             r = itq.lockstep(payload["scenario"])
